@@ -7,6 +7,11 @@ Local Open Scope N_scope.
 (* ---------------------------------------------------------------------------------------- *)
 (* generic helpers *)
 
+Ltac split_andb :=
+  repeat match goal with
+         | H : andb _ _ = true |- _ => apply andb_true_iff in H; destruct H
+         end.
+
 Lemma list_ind2 {A} (P : list A -> Prop) :
   P [] -> (forall x, P [x]) -> (forall x y r, P r -> P (y :: r) -> P (x :: y :: r)) -> forall l, P l.
 Proof.
@@ -402,8 +407,8 @@ Lemma rules_ok_from_spec t : forall rules i, rules_ok_from t i rules = true ->
 Proof.
   induction rules as [|[a0 b0] r IH]; intros i H k a b Hk.
   - unfold nthN in Hk. destruct (N.to_nat k); discriminate.
-  - cbn [rules_ok_from] in H.
-    assert (H' : rules_ok_from t (i + 1) r = true) by lia.
+  - cbn [rules_ok_from] in H. split_andb.
+    assert (H' : rules_ok_from t (i + 1) r = true) by assumption.
     destruct (N.eq_dec k 0) as [->|Hk0].
     + unfold nthN in Hk. cbn in Hk. inversion Hk; subst. lia.
     + unfold nthN in Hk. replace (N.to_nat k) with (S (N.to_nat (k - 1))) in Hk by lia. cbn [nth_error] in Hk.
@@ -413,7 +418,7 @@ Qed.
 Lemma list_eqb_eq : forall x y, list_eqb x y = true -> x = y.
 Proof.
   induction x as [|a x IH]; intros [|b y] H; cbn [list_eqb] in H; try discriminate; [reflexivity|].
-  assert (a = b) by lia. assert (list_eqb x y = true) by lia. f_equal; auto.
+  split_andb. assert (a = b) by lia. f_equal; auto.
 Qed.
 
 Lemma list_eqb_refl : forall x, list_eqb x x = true.
@@ -423,19 +428,19 @@ Theorem check_grammar_sound input t rules cseq :
   check_grammar input t rules cseq = true -> grammar_valid input t rules cseq.
 Proof.
   unfold check_grammar. intros H.
-  destruct (expand_seq rules t cseq) as [l|] eqn:Ex; [|lia].
+  destruct (expand_seq rules t cseq) as [l|] eqn:Ex; [|rewrite andb_false_r in H; discriminate].
+  apply andb_true_iff in H; destruct H as [H H5].
+  apply andb_true_iff in H; destruct H as [H H4].
+  apply andb_true_iff in H; destruct H as [H H3].
+  apply andb_true_iff in H; destruct H as [H1' H2].
   assert (H1 : 1 <= t) by lia.
-  assert (H2 : rules_ok t rules = true) by lia.
-  assert (H3 : seq_ok t rules cseq = true) by lia.
-  assert (H4 : bits_ok t rules cseq = true) by lia.
-  assert (H5 : list_eqb l input = true) by lia.
   apply list_eqb_eq in H5. subst l.
   assert (Hw : rules_wf t rules).
   { intros i a b Hi. pose proof (rules_ok_from_spec t rules 0 H2 i a b Hi). lia. }
   unfold grammar_valid. split; [exact H1|]. split; [exact Hw|]. split.
   { unfold seq_wf, seq_ok in *. rewrite forallb_forall in H3. apply Forall_forall. intros s Hs.
     specialize (H3 s Hs). cbn beta in H3. lia. }
-  split; [reflexivity|]. split.
+  split; [exact Ex|]. split.
   { unfold bits_ok in H4. rewrite forallb_forall in H4. intros s Hs. specialize (H4 s Hs). cbn beta in H4. lia. }
   apply strings_addressable; assumption.
 Qed.
@@ -464,7 +469,7 @@ Proof.
   induction rules as [|[a0 b0] r IH]; intros i H; cbn [rules_ok_from]; [reflexivity|].
   pose proof (H 0 a0 b0 eq_refl) as H0.
   rewrite (IH (i + 1)).
-  - lia.
+  - rewrite andb_true_r. lia.
   - intros k a b Hk. specialize (H (k + 1) a b).
     unfold nthN in H, Hk. replace (N.to_nat (k + 1)) with (S (N.to_nat k)) in H by lia.
     specialize (H Hk). lia.
@@ -481,5 +486,384 @@ Proof.
     specialize (Hs s Hin). cbn beta in Hs. lia. }
   assert (bits_ok t rules cseq = true).
   { unfold bits_ok. apply forallb_forall. intros s Hin. specialize (Hb s Hin). lia. }
-  lia.
+  repeat (apply andb_true_iff; split); try assumption; try reflexivity. lia.
+Qed.
+
+(* ---------------------------------------------------------------------------------------- *)
+(* C. the exact decoder on the packed rule table                                             *)
+
+Lemma bits32_range n : 1 <= n < 2 ^ 32 -> 1 <= bits32 n <= 32.
+Proof.
+  intros [H1 H2]. unfold bits32, u32. rewrite N.mod_small by exact H2.
+  rewrite N.size_log2 by lia.
+  assert (N.log2 n < 32) by (apply N.log2_lt_pow2; lia). lia.
+Qed.
+
+Lemma lenN_flat_rules rules : lenN (flat_rules rules) = 2 * lenN rules.
+Proof.
+  induction rules as [|[a b] r IH]; [reflexivity|].
+  unfold flat_rules in *. cbn [flat_map fst snd app]. rewrite !lenN_cons, IH. lia.
+Qed.
+
+Lemma nthN_cons_succ {A} (x : A) l k : nthN (x :: l) (k + 1) = nthN l k.
+Proof. unfold nthN. replace (N.to_nat (k + 1)) with (S (N.to_nat k)) by lia. reflexivity. Qed.
+
+Lemma nthN_flat_rules : forall rules i a b, nthN rules i = Some (a, b) ->
+  nthN (flat_rules rules) (2 * i) = Some a /\ nthN (flat_rules rules) (2 * i + 1) = Some b.
+Proof.
+  induction rules as [|[a0 b0] r IH]; intros i a b Hi.
+  - unfold nthN in Hi. destruct (N.to_nat i); discriminate.
+  - destruct (N.eq_dec i 0) as [->|Hi0].
+    + unfold nthN in Hi. cbn in Hi. inversion Hi; subst. split; reflexivity.
+    + replace i with ((i - 1) + 1) in Hi by lia. rewrite nthN_cons_succ in Hi.
+      destruct (IH _ _ _ Hi) as [Ha Hb].
+      unfold flat_rules in *. cbn [flat_map fst snd app].
+      replace (2 * i) with ((2 * (i - 1) + 1) + 1) by lia.
+      replace (2 * i + 1) with ((2 * (i - 1) + 1 + 1) + 1) by lia.
+      rewrite !nthN_cons_succ. split; [exact Ha | exact Hb].
+Qed.
+
+(* the constructor's table: it exists, is a well-formed LogSequence of the reported width, and
+   field 2i / 2i+1 hold the two sides of rule i *)
+Theorem rp_pack_spec t rules :
+  1 <= t -> rules_wf t rules -> t + lenN rules < 2 ^ 32 ->
+  exists G, rp_pack t rules = Some G /\ ls_wf G /\ ls_bits G = rp_bits t rules /\ ls_n G = 2 * lenN rules /\
+    forall i a b, nthN rules i = Some (a, b) -> ls_get G (2 * i) = Some a /\ ls_get G (2 * i + 1) = Some b.
+Proof.
+  intros Ht Hw Hlt. unfold rp_pack.
+  assert (Hb : 1 <= rp_bits t rules <= 32) by (apply bits32_range; lia).
+  destruct (ls_fill_spec (flat_rules rules) (ls_new (rp_bits t rules) (2 * lenN rules)) 0)
+    as (G & HG & Hwf & Hn & Hbits & Hget & _).
+  - apply ls_new_wf. lia.
+  - cbn [ls_new ls_n]. rewrite lenN_flat_rules. lia.
+  - cbn [ls_new ls_bits]. apply Forall_forall. intros s Hs.
+    destruct (rules_wf_flat t rules Hw s Hs) as [_ Hs'].
+    eapply N.lt_trans; [|apply bits32_gt; lia]. lia.
+  - exists G. split; [exact HG|]. split; [exact Hwf|]. split; [exact Hbits|]. split; [exact Hn|].
+    intros i a b Hi. destruct (nthN_flat_rules rules i a b Hi) as [Ha Hb'].
+    pose proof (nthN_Some_lt _ _ _ Hi) as Hil.
+    rewrite <- Ha, <- Hb'. split.
+    + rewrite <- (Hget (2 * i)) by (rewrite lenN_flat_rules; lia). f_equal.
+    + rewrite <- (Hget (2 * i + 1)) by (rewrite lenN_flat_rules; lia). f_equal.
+Qed.
+
+Lemma expandRule_eq G t f rule :
+  expandRule G t (S f) rule =
+  match ls_get G (u32 (2 * rule)), ls_get G (u32 (2 * rule + 1)) with
+  | Some l0, Some r0 =>
+      match (if t <=? u32 l0 then expandRule G t f (u32 (u32 l0 - t)) else Some [u32 l0 mod 256]) with
+      | None => None
+      | Some x =>
+          match (if t <=? u32 r0 then expandRule G t f (u32 (u32 r0 - t)) else Some [u32 r0 mod 256]) with
+          | None => None
+          | Some y => Some (x ++ y)
+          end
+      end
+  | _, _ => None
+  end.
+Proof. reflexivity. Qed.
+
+Section PackedDecoder.
+  Variables (t : N) (rules : list rule) (G : logseq).
+  Hypothesis Ht : 1 <= t <= 256.
+  Hypothesis Hw : rules_wf t rules.
+  (* 2*rule+1 is computed in 32-bit unsigned arithmetic *)
+  Hypothesis Hlt : t + lenN rules < 2 ^ 31.
+  Hypothesis HG : forall i a b, nthN rules i = Some (a, b) ->
+      ls_get G (2 * i) = Some a /\ ls_get G (2 * i + 1) = Some b.
+
+  Lemma u32_small x : x < 2 ^ 32 -> u32 x = x.
+  Proof. intros H. unfold u32. apply N.mod_small. exact H. Qed.
+
+  (* one side of a rule, as expandRule treats it *)
+  Lemma expand_side f a :
+    a < t + lenN rules ->
+    (forall i, i < lenN rules -> expandRule G t f i = expand_sym rules t f (t + i)) ->
+    (if t <=? u32 a then expandRule G t f (u32 (u32 a - t)) else Some [u32 a mod 256]) = expand_sym rules t f a.
+  Proof.
+    intros Ha IH. rewrite (u32_small a) by lia.
+    destruct (N.leb_spec t a).
+    - rewrite u32_small by lia. rewrite IH by lia. f_equal. lia.
+    - rewrite expand_sym_eq. destruct (N.ltb_spec a t); [|lia].
+      rewrite N.mod_small by lia. reflexivity.
+  Qed.
+
+  (* RePair::expandRule on the packed table computes the abstract expansion of the rule's symbol,
+     at every recursion depth *)
+  Theorem expandRule_spec : forall f i, i < lenN rules ->
+    expandRule G t f i = expand_sym rules t f (t + i).
+  Proof.
+    induction f as [|f IH]; intros i Hi.
+    - rewrite expand_sym_eq. destruct (N.ltb_spec (t + i) t); [lia | reflexivity].
+    - rewrite expandRule_eq, expand_sym_eq.
+      destruct (N.ltb_spec (t + i) t); [lia|].
+      replace (t + i - t) with i by lia.
+      destruct (nthN_lt_Some rules i Hi) as [[a b] Hab]. rewrite Hab.
+      destruct (HG _ _ _ Hab) as [Ha Hb]. destruct (Hw _ _ _ Hab) as (_ & _ & Hal & Hbl).
+      rewrite (u32_small (2 * i)), (u32_small (2 * i + 1)) by lia. rewrite Ha, Hb.
+      rewrite (expand_side f a) by (lia || exact IH).
+      rewrite (expand_side f b) by (lia || exact IH).
+      destruct (expand_sym rules t f a); [|reflexivity].
+      destruct (expand_sym rules t f b); reflexivity.
+  Qed.
+
+  (* the callers' extract loops over a stored symbol sequence *)
+  Theorem decode_seq_spec f : forall seq, seq_wf t rules seq ->
+    decode_seq G t f seq = expand_list rules t f seq.
+  Proof.
+    induction 1 as [|s r Hs Hr IH]; cbn [decode_seq expand_list]; [reflexivity|].
+    assert (Hside : (if t <=? s then expandRule G t f (u32 (s - t)) else Some [s mod 256]) = expand_sym rules t f s).
+    { destruct (N.leb_spec t s).
+      - rewrite u32_small by lia. rewrite expandRule_spec by lia. f_equal. lia.
+      - rewrite expand_sym_eq. destruct (N.ltb_spec s t); [|lia]. rewrite N.mod_small by lia. reflexivity. }
+    rewrite Hside, IH. destruct (expand_sym rules t f s); [|reflexivity].
+    destruct (expand_list rules t f r); reflexivity.
+  Qed.
+End PackedDecoder.
+
+(* a grammar accepted by the checker is decoded by the exact model of the C++ decoder, run on the
+   table the constructor packs, to the original input *)
+Theorem decode_correct input t rules cseq :
+  grammar_valid input t rules cseq -> t <= 256 -> t + lenN rules < 2 ^ 31 ->
+  exists G, rp_pack t rules = Some G /\ decode_seq G t (length rules) cseq = Some input.
+Proof.
+  intros (H1 & Hw & Hs & Hex & _) Ht Hlt.
+  destruct (rp_pack_spec t rules H1 Hw ltac:(lia)) as (G & HG & _ & _ & _ & Hget).
+  exists G. split; [exact HG|].
+  rewrite (decode_seq_spec t rules G) by (assumption || lia). exact Hex.
+Qed.
+
+(* ---------------------------------------------------------------------------------------- *)
+(* C. the compaction loop                                                                    *)
+
+(* declarative gap structure of the array left by IRePair: a cell is either a live symbol (>= 0), or the
+   first cell of a gap, holding  -(j+1)  where j is the (absolute) index of the next live cell; the other
+   cells of the gap are arbitrary.  [gapped off arr out]: [arr] starts at absolute index [off] and its live
+   symbols are [out], in order. *)
+Inductive gapped : N -> list Z -> list N -> Prop :=
+| gapped_nil off : gapped off [] []
+| gapped_sym off v rest out :
+    (0 <= v)%Z -> gapped (off + 1) rest out -> gapped off (v :: rest) (Z.to_N v :: out)
+| gapped_gap off v gap rest out :
+    (v < 0)%Z -> Z.to_N (- (v + 1)) = off + 1 + lenN gap ->
+    gapped (off + 1 + lenN gap) rest out -> gapped off (v :: gap ++ rest) out.
+
+Lemma compact_walk_eq arr n fuel io :
+  compact_walk arr n fuel io =
+  if n <=? io then Some [] else
+  match fuel with
+  | O => None
+  | S f =>
+      match nthN arr io with
+      | None => None
+      | Some v =>
+          if (0 <=? v)%Z
+          then match compact_walk arr n f (io + 1) with
+               | Some out => Some (Z.to_N v :: out)
+               | None => None
+               end
+          else compact_walk arr n f (u32 (Z.to_N (- (v + 1))))
+      end
+  end.
+Proof. destruct fuel; reflexivity. Qed.
+
+Lemma nthN_middle {A} (pre : list A) x post : nthN (pre ++ x :: post) (lenN pre) = Some x.
+Proof. rewrite nthN_app_r by lia. rewrite N.sub_diag. reflexivity. Qed.
+
+Lemma compact_walk_spec : forall off suffix out, gapped off suffix out ->
+  forall pre fuel, lenN pre = off -> lenN (pre ++ suffix) < 2 ^ 32 -> (length suffix <= fuel)%nat ->
+  compact_walk (pre ++ suffix) (lenN (pre ++ suffix)) fuel off = Some out.
+Proof.
+  induction 1 as [off | off v rest out Hv Hg IH | off v gap rest out Hv Hj Hg IH];
+    intros pre fuel Hpre Hlen Hfuel; rewrite compact_walk_eq.
+  - rewrite app_nil_r. destruct (N.leb_spec (lenN pre) off); [reflexivity | lia].
+  - assert (Hn : lenN (pre ++ v :: rest) = lenN pre + 1 + lenN rest) by (rewrite lenN_app, lenN_cons; lia).
+    destruct (N.leb_spec (lenN (pre ++ v :: rest)) off); [lia|].
+    cbn [length] in Hfuel. destruct fuel as [|f]; [lia|].
+    rewrite <- Hpre, nthN_middle.
+    destruct (Z.leb_spec 0 v); [|lia].
+    assert (E : pre ++ v :: rest = (pre ++ [v]) ++ rest) by (rewrite <- app_assoc; reflexivity).
+    rewrite E. rewrite Hpre. rewrite (IH (pre ++ [v]) f); [reflexivity | rewrite lenN_snoc; lia | rewrite <- E; exact Hlen | lia].
+  - assert (Hn : lenN (pre ++ v :: gap ++ rest) = lenN pre + 1 + lenN gap + lenN rest)
+      by (rewrite lenN_app, lenN_cons, lenN_app; lia).
+    destruct (N.leb_spec (lenN (pre ++ v :: gap ++ rest)) off); [lia|].
+    cbn [length] in Hfuel. rewrite app_length in Hfuel. destruct fuel as [|f]; [lia|].
+    rewrite <- Hpre, nthN_middle.
+    destruct (Z.leb_spec 0 v); [lia|].
+    rewrite Hj. unfold u32. rewrite N.mod_small by lia.
+    assert (E : pre ++ v :: gap ++ rest = (pre ++ v :: gap) ++ rest) by (rewrite <- app_assoc; reflexivity).
+    rewrite E. apply IH; [rewrite lenN_app, lenN_cons; lia | rewrite <- E; exact Hlen | lia].
+Qed.
+
+(* the loop returns exactly the live symbols, in order *)
+Theorem compact_spec arr out :
+  gapped 0 arr out -> lenN arr < 2 ^ 32 -> compact arr = Some out.
+Proof.
+  intros Hg Hlen. unfold compact.
+  exact (compact_walk_spec 0 arr out Hg [] (length arr) eq_refl Hlen (le_n _)).
+Qed.
+
+(* soundness of the boolean well-formedness check the harness runs on the real array *)
+Lemma skipn_skipn' {A} : forall (a b : nat) (l : list A), skipn a (skipn b l) = skipn (b + a) l.
+Proof.
+  intros a b. revert a. induction b as [|b IH]; intros a l; [reflexivity|].
+  destruct l as [|x l]; [rewrite !skipn_nil; reflexivity|]. cbn [skipn Nat.add]. apply IH.
+Qed.
+
+Lemma skipn_nth_cons {A} : forall (l : list A) k x, nth_error l k = Some x -> skipn k l = x :: skipn (S k) l.
+Proof.
+  induction l as [|y l IH]; intros [|k] x H; try discriminate.
+  - cbn in H. inversion H; subst. reflexivity.
+  - cbn [nth_error] in H. cbn [skipn]. rewrite (IH k x H). reflexivity.
+Qed.
+
+Lemma gaps_wf_walk_eq arr n fuel io :
+  gaps_wf_walk arr n fuel io =
+  if n <=? io then true else
+  match fuel with
+  | O => false
+  | S f =>
+      match nthN arr io with
+      | None => false
+      | Some v =>
+          if (0 <=? v)%Z then gaps_wf_walk arr n f (io + 1)
+          else let j := Z.to_N (- (v + 1)) in
+               (io <? j) && (j <=? n) && gaps_wf_walk arr n f j
+      end
+  end.
+Proof. destruct fuel; reflexivity. Qed.
+
+Lemma gaps_wf_walk_sound arr : forall fuel io, io <= lenN arr ->
+  gaps_wf_walk arr (lenN arr) fuel io = true -> exists out, gapped io (skipn (N.to_nat io) arr) out.
+Proof.
+  induction fuel as [|f IH]; intros io Hio H; rewrite gaps_wf_walk_eq in H.
+  - destruct (N.leb_spec (lenN arr) io); [|discriminate].
+    rewrite skipn_all2 by (unfold lenN in *; lia). exists []. constructor.
+  - destruct (N.leb_spec (lenN arr) io).
+    { rewrite skipn_all2 by (unfold lenN in *; lia). exists []. constructor. }
+    destruct (nthN arr io) as [v|] eqn:Ev; [|discriminate].
+    unfold nthN in Ev. rewrite (skipn_nth_cons arr _ v Ev).
+    destruct (Z.leb_spec 0 v).
+    + destruct (IH (io + 1) ltac:(lia) H) as [out Hout].
+      replace (N.to_nat (io + 1)) with (S (N.to_nat io)) in Hout by lia.
+      exists (Z.to_N v :: out). constructor; assumption.
+    + cbv zeta in H. split_andb.
+      set (j := Z.to_N (- (v + 1))) in *.
+      destruct (IH j ltac:(lia) ltac:(assumption)) as [out Hout].
+      set (k := (N.to_nat j - S (N.to_nat io))%nat).
+      assert (Hsplit : skipn (S (N.to_nat io)) arr
+                       = firstn k (skipn (S (N.to_nat io)) arr) ++ skipn (N.to_nat j) arr).
+      { rewrite <- (firstn_skipn k (skipn (S (N.to_nat io)) arr)) at 1. f_equal.
+        rewrite skipn_skipn'. f_equal. unfold k. lia. }
+      rewrite Hsplit. exists out.
+      assert (Hlen : lenN (firstn k (skipn (S (N.to_nat io)) arr)) = j - io - 1).
+      { unfold lenN. rewrite firstn_length, skipn_length. unfold k, lenN in *. lia. }
+      apply gapped_gap; [assumption | rewrite Hlen; fold j; lia |].
+      rewrite Hlen. replace (io + 1 + (j - io - 1)) with j by lia. exact Hout.
+Qed.
+
+Theorem gaps_wf_sound arr : gaps_wf arr = true -> exists out, gapped 0 arr out.
+Proof. intros H. exact (gaps_wf_walk_sound arr (length arr) 0 ltac:(lia) H). Qed.
+
+Corollary compact_total arr :
+  gaps_wf arr = true -> lenN arr < 2 ^ 32 -> exists out, compact arr = Some out /\ gapped 0 arr out.
+Proof.
+  intros H Hlen. destruct (gaps_wf_sound arr H) as [out Hout].
+  exists out. split; [apply compact_spec; assumption | exact Hout].
+Qed.
+
+(* the live symbols are a subsequence of the non-negative cells *)
+Inductive sublist {A} : list A -> list A -> Prop :=
+| sub_nil l : sublist [] l
+| sub_keep x s l : sublist s l -> sublist (x :: s) (x :: l)
+| sub_skip x s l : sublist s l -> sublist s (x :: l).
+
+Lemma sublist_app_skip {A} (g s l : list A) : sublist s l -> sublist s (g ++ l).
+Proof. intros H. induction g; [exact H | constructor; assumption]. Qed.
+
+Theorem gapped_sublist off arr out :
+  gapped off arr out ->
+  sublist out (map Z.to_N (filter (fun v => (0 <=? v)%Z) arr)).
+Proof.
+  induction 1 as [off | off v rest out Hv Hg IH | off v gap rest out Hv Hj Hg IH].
+  - constructor.
+  - cbn [filter]. destruct (Z.leb_spec 0 v); [|lia]. cbn [map]. constructor. exact IH.
+  - cbn [filter]. destruct (Z.leb_spec 0 v); [lia|]. rewrite filter_app, map_app.
+    apply sublist_app_skip. exact IH.
+Qed.
+
+(* ---------------------------------------------------------------------------------------- *)
+(* D. save / load                                                                            *)
+
+Lemma take_le_bytes k x rest : x < 256 ^ N.of_nat k -> take_le k (le_bytes k x ++ rest) = Some (x, rest).
+Proof.
+  intros Hx. unfold take_le.
+  destruct (Nat.ltb_spec (length (le_bytes k x ++ rest)) k) as [Hlt|_].
+  - rewrite app_length, le_bytes_length in Hlt. lia.
+  - rewrite firstn_app_exact by apply le_bytes_length.
+    rewrite skipn_app_exact by apply le_bytes_length.
+    rewrite le_value_le_bytes by exact Hx. reflexivity.
+Qed.
+
+Definition rp_obj_wf (o : rp_obj) : Prop :=
+  ro_maxchar o < 256 /\ ro_terminals o < 2 ^ 64 /\ ro_rules o < 2 ^ 64 /\
+  ls_wf (ro_G o) /\ ls_n (ro_G o) < 2 ^ 64.
+
+(* RePair::save(out) followed by RePair::loadNoSeq gives back the same object and leaves the stream
+   exactly behind the image *)
+Theorem rp_load_save o rest :
+  rp_obj_wf o -> rp_loadNoSeq (rp_save o ++ rest) = Some (o, rest).
+Proof.
+  intros (Hm & Ht & Hr & Hwf & Hn). destruct o as [mc t r g]; cbn [ro_maxchar ro_terminals ro_rules ro_G] in *.
+  unfold rp_save, rp_loadNoSeq; cbn [ro_maxchar ro_terminals ro_rules ro_G].
+  rewrite <- !app_assoc.
+  rewrite take_le_bytes by (change (256 ^ N.of_nat 1) with 256; exact Hm).
+  rewrite take_le_bytes by (change (256 ^ N.of_nat 8) with (2 ^ 64); exact Ht).
+  rewrite take_le_bytes by (change (256 ^ N.of_nat 8) with (2 ^ 64); exact Hr).
+  rewrite logseq_load_save; [reflexivity | exact Hwf | destruct Hwf as [Hb _ _]; lia | exact Hn].
+Qed.
+
+(* RePair::save(out, encoding) / RePair::load with a LogSequence sequence (HASHRPF, RPFC-style encodings) *)
+Theorem rp_load_save_seq o enc cls rest :
+  rp_obj_wf o -> enc < 2 ^ 32 -> enc_is_dac enc = false -> ls_wf cls -> ls_n cls < 2 ^ 64 ->
+  rp_load_seq (rp_save_seq o enc cls ++ rest) = Some (o, enc, cls, rest).
+Proof.
+  intros Ho He Hd Hc Hn. unfold rp_save_seq, rp_load_seq.
+  rewrite <- !app_assoc. rewrite rp_load_save by exact Ho.
+  rewrite take_le_bytes by (change (256 ^ N.of_nat 4) with (2 ^ 32); exact He).
+  rewrite Hd.
+  rewrite logseq_load_save; [reflexivity | exact Hc | destruct Hc as [Hb _ _]; lia | exact Hn].
+Qed.
+
+(* the object the constructor builds for a valid grammar is well formed, hence survives save/load unchanged,
+   and the reloaded table still decodes the compacted sequence to the input *)
+Theorem rp_grammar_load_save input maxchar t rules cseq rest :
+  grammar_valid input t rules cseq -> maxchar < 256 -> t <= 256 -> t + lenN rules < 2 ^ 31 ->
+  exists o, rp_build_obj maxchar t rules = Some o /\
+            rp_getBits o = rp_bits t rules /\
+            rp_loadNoSeq (rp_save o ++ rest) = Some (o, rest) /\
+            decode_seq (ro_G o) (ro_terminals o) (length rules) cseq = Some input.
+Proof.
+  intros Hv Hm Ht Hlt. pose proof Hv as (H1 & Hw & _).
+  destruct (rp_pack_spec t rules H1 Hw ltac:(lia)) as (G & HG & Hwf & Hbits & Hn & Hget).
+  destruct (decode_correct input t rules cseq Hv Ht Hlt) as (G' & HG' & Hdec).
+  rewrite HG in HG'. inversion HG'; subst G'.
+  unfold rp_build_obj. rewrite HG. eexists. split; [reflexivity|].
+  cbn [ro_G ro_terminals]. split; [reflexivity|]. split; [|exact Hdec].
+  apply rp_load_save. unfold rp_obj_wf; cbn [ro_maxchar ro_terminals ro_rules ro_G].
+  split; [exact Hm|]. split; [lia|]. split; [lia|]. split; [exact Hwf | rewrite Hn; lia].
+Qed.
+
+(* ---------------------------------------------------------------------------------------- *)
+(* the bit width is tight: it is never larger than needed for the value rules+terminals itself, and
+   there is no off-by-one at powers of two (the largest symbol is rules+terminals-1) *)
+Lemma rp_bits_pow2_example : rp_bits 3 [(1, 2)] = 3 /\ rp_bits 2 [(1, 1); (2, 2)] = 3 /\ rp_bits 2 [(1, 1)] = 2.
+Proof. vm_compute. repeat split. Qed.
+
+(* equational form of step losslessness on well-formed states (every reachable state is well formed) *)
+Corollary rp_step_lossless_eq t a b mask st :
+  wf_state t st -> expand_state t (apply_step t a b mask st) = expand_state t st.
+Proof.
+  intros [Hr Hs]. destruct (expand_seq_total t _ _ Hr Hs) as [l Hl].
+  unfold expand_state at 2. rewrite Hl. apply rp_step_lossless. exact Hl.
 Qed.
